@@ -1664,8 +1664,10 @@ static void c05_arrival(Run &run, Resp &rs, VFd &sock) {
       for (auto &x : W.resps) if (x.server == T.server && !x.tcp && !x.forged && delivered.count(x.id) && cookie_of(x.msg).size() >= 16 && !x.read_seqs.empty()) valid_seqs.push_back(x.read_seqs[0]);   // (a duplicate copy read later finds no query any more)
       bool sent_after_period = false;
       for (auto &x : W.resps) {
-        if (x.server != T.server || x.tcp || x.id == rs.id || x.rcode == 23 || cookie_of(x.msg).size() >= 16) continue;
-        for (size_t k = 0; k < x.read_seqs.size() && k < x.read_times.size() && !sent_after_period; k++) {
+        if (x.server != T.server || x.tcp || x.rcode == 23 || cookie_of(x.msg).size() >= 16) continue;
+        // (for the packet under judgement itself only earlier copies count: the network may have duplicated it)
+        size_t nreads = x.id == rs.id && !x.read_seqs.empty() ? x.read_seqs.size() - 1 : x.read_seqs.size();
+        for (size_t k = 0; k < nreads && k < x.read_times.size() && !sent_after_period; k++) {
           uint32_t sc = x.read_seqs[k]; int64_t tc = x.read_times[k];
           // a send to that server at least 120 s later, with no accepted valid cookie in between, starts over
           for (auto &t : W.txs) {
